@@ -295,7 +295,7 @@ static void run_op(struct prog_s * p, char * op) {
         uint8_t * n1 = gen_bytes(TOK(12), 1, 1, &l, &nul); uint8_t * n2 = gen_bytes(TOK(13), 1, 1, &l, &nul);
         s.name = (const char *) n1; s.units = (const char *) n2;
         int32_t rc = p->wr ? jls_wr_signal_def(p->wr, &s) : (p->twr ? jls_twr_signal_def(p->twr, &s) : -1);
-        if (s.signal_id < 256) p->dtype[s.signal_id] = s.data_type;
+        if (!rc && s.signal_id < 256) p->dtype[s.signal_id] = s.data_type;   /* only accepted definitions */
         printf(" %d", rc);
         free(n1); free(n2);
         return;
@@ -463,6 +463,7 @@ static void run_op(struct prog_s * p, char * op) {
         if (!dt) { struct jls_signal_def_s d; if (0 == jls_rd_signal(p->rd, sig, &d)) dt = d.data_type; else dt = JLS_DATATYPE_F32; }
         int w = dt_bits(dt);
         size_t nb = count > 0 ? (size_t) (((uint64_t) count * w + 7) / 8) : 0;
+        if (count > (1LL << 26)) nb = 16;   /* absurd request: must be rejected before the buffer is touched (ASan tells otherwise) */
         /* documented size; the library may use up to one extra byte internally for sub-byte types: not allowed */
         uint8_t * b = malloc(nb + p->slack + 1);
         memset(b, 0xA5, nb + p->slack + 1);
@@ -500,6 +501,7 @@ static void run_op(struct prog_s * p, char * op) {
     if (!strcmp(c, "st")) {
         uint16_t sig = (uint16_t) TOKU(1); int64_t start = TOKI(2), incr = TOKI(3), count = TOKI(4);
         size_t n = count > 0 ? (size_t) count * 4 : 0;
+        if (count > (1LL << 22)) n = 4;
         double * d = malloc((n + 1) * sizeof(double));
         for (size_t i = 0; i < n; ++i) d[i] = -12345.0;
         int32_t rc = jls_rd_fsr_statistics(p->rd, sig, start, incr, d, count);
@@ -533,8 +535,10 @@ static void run_case(char * line, const char * scratch, size_t slack, unsigned t
     if (pid == 0) {
         __real_close(pfd[0]);
         dup2(pfd[1], 1);
-        int devnull = __real_open("/dev/null", O_WRONLY);
-        dup2(devnull, 2);
+        if (!getenv("JLSRUN_STDERR")) {
+            int devnull = __real_open("/dev/null", O_WRONLY);
+            dup2(devnull, 2);
+        }
         alarm(timeout_s);
         struct prog_s p; memset(&p, 0, sizeof(p));
         p.first = 1; p.slack = slack;
